@@ -14,6 +14,8 @@ Local Open Scope Z_scope.
 
 (* RpcClient: _auth present?, the legs the provider still has, provider.complete, and the run state of Handshake.v *)
 Record conn := { cn_auth : bool; cn_legs : list leg; cn_complete : bool; cn_st : st }.
+Definition set_steps (s : st) (l : list (option bytes)) : st :=
+  {| trace := trace s; steps := l; sign := sign s; server := server s |}.
 Definition with_st (c : conn) (s : st) : conn :=
   {| cn_auth := cn_auth c; cn_legs := cn_legs c; cn_complete := cn_complete c; cn_st := s |}.
 
@@ -26,7 +28,9 @@ Inductive obj :=
 | OHdr (packet_type flags : Z)                    (* PDUHeader built by _create_pdu_header: what Handshake.sent keeps of it *)
 | OSent (p : sent)                                (* Bind / AlterContext *)
 | OClass (e : expect)                             (* the classes BindAck / AlterContextResponse handed to _send_pdu *)
-| OAuth (complete : bool)                         (* self._auth, as seen through self *)
+| OAuth (legs : list leg) (complete : bool) (calls : list (option bytes))
+                                                  (* self._auth, the view of the client's state that IS the provider: the legs it still has,
+                                                     ctx.complete, and the arguments its step() received so far (Handshake.st's `steps`) *)
 | OStep                                           (* the bound method self._auth.step *)
 | OSelf (c : conn).
 
@@ -64,6 +68,12 @@ Definition step_hs (c : conn) (a : option bytes) : res (pv obj * pv obj) :=
                    VO (OSelf {| cn_auth := cn_auth c; cn_legs := ls; cn_complete := leg_complete l;
                                 cn_st := snoc_step (cn_st c) a |}))
   end.
+(* AuthenticationProvider.step(a) on the provider itself (SyncRpcClient.bind calls it directly) *)
+Definition auth_step (legs : list leg) (calls : list (option bytes)) (a : option bytes) : res (pv obj * pv obj) :=
+  match legs with
+  | [] => Raise KeyError
+  | l :: ls => Ok (VO (OTrailer (leg_token l)), VO (OAuth ls (leg_complete l) (calls ++ [a])))
+  end.
 Definition expect_is_alter (e : expect) : bool := match e with EAlterResp => true | EBindAck => false end.
 
 Definition hs_ext : ext obj :=
@@ -87,12 +97,12 @@ Definition hs_ext : ext obj :=
          else None
        | VO (OAckHdr fl) => if String.eqb a "packet_flags" then Some (Ok (VI fl)) else None
        | VO (OTrailer t) => if String.eqb a "auth_value" then Some (Ok (VB t)) else None
-       | VO (OAuth cpl) =>
+       | VO (OAuth _ cpl _) =>
          if String.eqb a "complete" then Some (Ok (vb cpl))
          else if String.eqb a "step" then Some (Ok (VO OStep))
          else None
        | VO (OSelf c) =>
-         if String.eqb a "_auth" then Some (Ok (if cn_auth c then VO (OAuth (cn_complete c)) else VN))
+         if String.eqb a "_auth" then Some (Ok (if cn_auth c then VO (OAuth (cn_legs c) (cn_complete c) (steps (cn_st c))) else VN))
          else if String.eqb a "_sign_header" then Some (Ok (vb (sign (cn_st c))))
          else None
        | _ => None
@@ -101,6 +111,11 @@ Definition hs_ext : ext obj :=
        match o, v with
        | VO (OSelf c), VI b =>
          if String.eqb a "_sign_header" then Some (Ok (VO (OSelf (with_st c (set_sign (cn_st c) (negb (b =? 0)))))))
+         else None
+       | VO (OSelf c), VO (OAuth legs cpl calls) =>
+         (* the provider after one of its methods ran (written back by the interpreter): its legs, completion and call log *)
+         if String.eqb a "_auth" then
+           Some (Ok (VO (OSelf {| cn_auth := cn_auth c; cn_legs := legs; cn_complete := cpl; cn_st := set_steps (cn_st c) calls |})))
          else None
        | _, _ => None
        end;
@@ -184,6 +199,14 @@ Definition hs_ext : ext obj :=
                      end)
              | None => None
              end
+           | _ => None
+           end
+         else None
+       | VO (OAuth legs _ calls) =>
+         if String.eqb m "step" then
+           match args with
+           | [] => Some (auth_step legs calls None)
+           | [VB t] => Some (auth_step legs calls (Some t))
            | _ => None
            end
          else None
